@@ -25,9 +25,9 @@ META = {
     ),
     "rule": (
         "models: a holder class with one property per (inner type x wrapper), inner in "
-        "{bool,int,float,str,bytearray,enum,constrained str,constrained int,concrete "
+        "{bool,int,float,str,bytearray,enum,constrained str / int / bytearray / float,concrete "
         "class,abstract class with modelType,concrete class with descendants}, wrapper in "
-        "{T,Optional[T],List[T],Optional[List[T]]} (44 shapes, all in one holder and one "
+        "{T,Optional[T],List[T],Optional[List[T]]} (52 shapes, all in one holder and one "
         "per holder); instances: boundary menus per type (ints +-2^63, floats -0.0/1e300/"
         "5e-324, strings with CR, CRLF, markup, astral, `]]>`, 70 chars; bytes incl. 9 "
         "bytes; every enum literal; every concrete descendant; lists of 0,1,2,3 items); "
@@ -59,6 +59,7 @@ META = {
 
 INNER = [
     "bool", "int", "float", "str", "bytearray", "Color", "Tag", "Level", "Item", "Basis", "Mid",
+    "Blob", "Ratio",
 ]
 WRAPS = ["{t}", "Optional[{t}]", "List[{t}]", "Optional[List[{t}]]"]
 
@@ -75,6 +76,8 @@ def prelude_spec(holder_props: List[Tuple[str, str]], flavour: int = 0) -> sdk.S
             cprims=[
                 sdk.CPrim("Tag", "int", [("self >= 0", "Tag must be non-negative.")]),
                 sdk.CPrim("Level", "str", [("len(self) >= 1", "Level must not be empty.")]),
+                sdk.CPrim("Blob", "float", [("self >= 0.0", "Blob must be non-negative.")]),
+                sdk.CPrim("Ratio", "bytearray", [("len(self) >= 0", "Ratio must have a length.")]),
             ],
             classes=[
                 sdk.Cls("Item", [("count", "str"), ("label", "Optional[int]")]),
@@ -90,6 +93,8 @@ def prelude_spec(holder_props: List[Tuple[str, str]], flavour: int = 0) -> sdk.S
         cprims=[
             sdk.CPrim("Tag", "str", [("len(self) >= 1", "Tag must not be empty.")]),
             sdk.CPrim("Level", "int", [("self >= 0", "Level must be non-negative.")]),
+            sdk.CPrim("Blob", "bytearray", [("len(self) >= 0", "Blob must have a length.")]),
+            sdk.CPrim("Ratio", "float", [("self >= 0.0", "Ratio must be non-negative.")]),
         ],
         classes=[
             sdk.Cls("Item", [("count", "int"), ("label", "Optional[str]")]),
@@ -115,14 +120,14 @@ def all_shapes() -> List[Tuple[str, str]]:
 
 
 QUICK_SINGLES = [
-    ("bytearray", 1), ("bytearray", 2), ("str", 0), ("str", 3), ("float", 2), ("Color", 1),
+    ("Blob", 3), ("Ratio", 2), ("bytearray", 1), ("bytearray", 2), ("str", 0), ("str", 3), ("float", 2), ("Color", 1),
     ("Basis", 0), ("Basis", 3), ("Mid", 2), ("Item", 1), ("Tag", 2), ("int", 3),
 ]
 
 
 def shards(tier: str) -> List[Any]:
     result = [("all", tier)]  # type: List[Any]
-    for inner in ("Tag", "Level", "Item", "Basis", "Color"):
+    for inner in ("Tag", "Level", "Item", "Basis", "Color", "Blob"):
         result.append(("sequence", tier, inner))
     if tier == "quick":
         for inner, wrap in QUICK_SINGLES:
@@ -484,7 +489,7 @@ class Runner:
                     result.add_violation(
                         f"json-bad-document:{type(exc).__name__}@{site}:{kind.split(':')[0].split('=')[0]}",
                         f"{kind} on {label}: {short_exc(exc)[:160]}",
-                        self.case(instance, {"leg": "json", "kind": kind, "document": json.dumps(document)}),
+                        self.case(instance, {"leg": "json", "kind": kind, "document": json.dumps(document, default=repr)}),
                     )
         if xml_text is not None:
             reader = self.from_str(entry)
@@ -567,7 +572,7 @@ def explore_model(spec: sdk.Spec, model_info: Any, result: Result, bound: int, w
                 runner.faults(instance, jsonable, xml_text, varied[0] if varied else None, label)
             seen += 1
             if len(result.samples) < 2 and varied and jsonable is not None:
-                result.samples.append({"model": model_info, "varied": varied, "json": json.dumps(jsonable)[:200]})
+                result.samples.append({"model": model_info, "varied": varied, "json": repr(jsonable)[:200]})
         # every other concrete class as the document root (dispatch through ancestors)
         for cls in spec.classes:
             if cls.abstract or cls.name == "Holder":
